@@ -237,6 +237,21 @@ func CheckTxnStatus(db *NoKV.DB, latches *latch.Manager, req *pb.CheckTxnStatusR
 			resp.Error = keyErrorLocked(req.PrimaryKey, lock)
 			return resp
 		}
+		// A commit writes its record and then removes the lock. A crash between the two leaves
+		// both behind: the transaction is committed, and the lock is what is left to clean up.
+		write, commitTs, err := reader.GetWriteByStartTs(req.PrimaryKey, req.LockTs)
+		if err != nil {
+			resp.Error = keyErrorRetryable(err)
+			return resp
+		}
+		if write != nil && write.Kind != pb.Mutation_Rollback {
+			if err := db.DeleteVersionedEntry(kv.CFLock, req.PrimaryKey, lockColumnTs); err != nil && err != utils.ErrKeyNotFound {
+				resp.Error = keyErrorRetryable(err)
+				return resp
+			}
+			resp.CommitVersion = commitTs
+			return resp
+		}
 		if isLockExpired(lock, req.CurrentTs) {
 			if err := rollbackKey(db, reader, req.PrimaryKey, req.LockTs); err != nil {
 				resp.Error = err
@@ -329,7 +344,7 @@ func commitKey(db *NoKV.DB, reader *Reader, key []byte, lock *Lock, commitVersio
 	if lock.MinCommitTs > commitVersion {
 		return keyErrorCommitTsExpired(key, commitVersion, lock.MinCommitTs)
 	}
-	write, commitTs, err := reader.GetWriteByStartTs(key, lock.Ts)
+	write, _, err := reader.GetWriteByStartTs(key, lock.Ts)
 	if err != nil {
 		return keyErrorRetryable(err)
 	}
@@ -337,12 +352,10 @@ func commitKey(db *NoKV.DB, reader *Reader, key []byte, lock *Lock, commitVersio
 		if write.Kind == pb.Mutation_Rollback {
 			return keyErrorAbort("transaction already rolled back")
 		}
-		if commitTs != commitVersion {
-			// Already committed with a different commit version; treat as success.
-			if err := db.DeleteVersionedEntry(kv.CFLock, key, lockColumnTs); err != nil && err != utils.ErrKeyNotFound {
-				return keyErrorRetryable(err)
-			}
-			return nil
+		// Already committed (with this or another commit version): treat as success, and
+		// remove the lock an interrupted commit may have left behind.
+		if err := db.DeleteVersionedEntry(kv.CFLock, key, lockColumnTs); err != nil && err != utils.ErrKeyNotFound {
+			return keyErrorRetryable(err)
 		}
 		return nil
 	}
